@@ -874,4 +874,234 @@ theorem almost_swapped_glue_witness :
 
 end AlmostSwapped
 
+/-! ## multiple_statements -/
+section MultipleStatements
+open MultipleStatements
+
+/-- a statement or last-statement node (the two hooks of the lint) -/
+def stmtish : Node → Prop
+  | .stmt _ | .last _ => True
+  | _ => False
+
+def nodeSpan : Node → Span
+  | .stmt s => stmtSpan s
+  | .last l => lastSpan l
+  | _ => ⟨0, 0⟩
+
+theorem lintStmt_lines_diags (layout : Layout) (σ : St) (sp : Span) :
+    let L := endLine layout sp.last
+    (L ∈ σ.lines ∧ (lintStmt layout σ sp).lines = σ.lines ∧
+        (lintStmt layout σ sp).diags = σ.diags ++ [{ code := "multiple_statements", primary := sp, msg := MultipleStatements.msg }]) ∨
+    (L ∉ σ.lines ∧ L ∈ σ.ifLines ∧ (lintStmt layout σ sp).lines = σ.lines ∧ (lintStmt layout σ sp).diags = σ.diags ∧
+        L ∉ (lintStmt layout σ sp).ifLines) ∨
+    (L ∉ σ.lines ∧ L ∉ σ.ifLines ∧ (lintStmt layout σ sp).lines = L :: σ.lines ∧ (lintStmt layout σ sp).diags = σ.diags ∧
+        (lintStmt layout σ sp).ifLines = σ.ifLines) := by
+  intro L
+  by_cases h1 : σ.lines.contains (endLine layout sp.last) = true
+  · have e : lintStmt layout σ sp = { σ with diags := σ.diags ++ [{ code := "multiple_statements", primary := sp, msg := MultipleStatements.msg }] } := by
+      unfold lintStmt; simp only [h1, if_true]
+    left; rw [e]; exact ⟨by simpa using h1, rfl, rfl⟩
+  · by_cases h2 : σ.ifLines.contains (endLine layout sp.last) = true
+    · have e : lintStmt layout σ sp = { σ with ifLines := σ.ifLines.filter (· != endLine layout sp.last) } := by
+        unfold lintStmt; simp only [h1, h2, if_true]; rfl
+      right; left; rw [e]
+      refine ⟨by simpa using h1, by simpa using h2, rfl, rfl, ?_⟩
+      simp [L]
+    · have e : lintStmt layout σ sp = { σ with lines := endLine layout sp.last :: σ.lines } := by
+        unfold lintStmt; simp only [h1, h2]; rfl
+      right; right; rw [e]
+      exact ⟨by simpa using h1, by simpa using h2, rfl, rfl, rfl⟩
+
+theorem prepareIf_same (layout : Layout) (σ : St) (c : Expr) (b : Block) :
+    (prepareIf layout σ c b).lines = σ.lines ∧ (prepareIf layout σ c b).diags = σ.diags := by
+  unfold prepareIf
+  split <;> simp
+
+/-- what a step does to `lines` / `diags`, for a statement-like node: it is `lintStmt` on a state with the same two fields -/
+theorem step_stmtish (layout : Layout) (σ : St) (n : Node) (hn : stmtish n) :
+    ∃ σ0 : St, σ0.lines = σ.lines ∧ σ0.diags = σ.diags ∧ step layout σ n = lintStmt layout σ0 (nodeSpan n) := by
+  cases n with
+  | stmt s =>
+    cases s
+    case if_ sp c b e1 e2 =>
+      exact ⟨prepareIf layout σ c b, (prepareIf_same layout σ c b).1, (prepareIf_same layout σ c b).2, by simp [step, nodeSpan]⟩
+    all_goals exact ⟨σ, rfl, rfl, by simp [step, nodeSpan]⟩
+  | last l => exact ⟨σ, rfl, rfl, by simp [step, nodeSpan]⟩
+  | block b => exact hn.elim
+  | call c => exact hn.elim
+
+theorem step_plain (layout : Layout) (σ : St) (n : Node) (hn : ¬ stmtish n) : step layout σ n = σ := by
+  cases n with
+  | stmt s => exact (hn trivial).elim
+  | last l => exact (hn trivial).elim
+  | block b => simp [step]
+  | call c => simp [step]
+
+/-- invariant of the fold: every recorded line is the end line of a statement seen so far; every diagnostic is a
+    statement seen so far, preceded by a statement that ends on the same line -/
+def Inv (layout : Layout) (pre : List Node) (σ : St) : Prop :=
+  (∀ L ∈ σ.lines, ∃ m ∈ pre, stmtish m ∧ endLine layout (nodeSpan m).last = L) ∧
+  (∀ d ∈ σ.diags, ∃ p n q, pre = p ++ n :: q ∧ stmtish n ∧ d.primary = nodeSpan n ∧
+      ∃ m ∈ p, stmtish m ∧ endLine layout (nodeSpan m).last = endLine layout d.primary.last)
+
+theorem Inv.extend {layout : Layout} {pre : List Node} {σ : St} (h : Inv layout pre σ) (n : Node) : Inv layout (pre ++ [n]) σ := by
+  refine ⟨fun L hL => ?_, fun d hd => ?_⟩
+  · obtain ⟨m, hm, r⟩ := h.1 L hL
+    exact ⟨m, by simp [hm], r⟩
+  · obtain ⟨p, n', q, hp, r⟩ := h.2 d hd
+    exact ⟨p, n', q ++ [n], by simp [hp], r⟩
+
+theorem Inv.step {layout : Layout} {pre : List Node} {σ : St} (h : Inv layout pre σ) (n : Node) :
+    Inv layout (pre ++ [n]) (step layout σ n) := by
+  by_cases hn : stmtish n
+  · obtain ⟨σ0, hl, hd, hs⟩ := step_stmtish layout σ n hn
+    rw [hs]
+    have h0 : Inv layout (pre ++ [n]) σ0 := by
+      have := h.extend n
+      exact ⟨by rw [hl]; exact this.1, by rw [hd]; exact this.2⟩
+    rcases lintStmt_lines_diags layout σ0 (nodeSpan n) with ⟨hin, e1, e2⟩ | ⟨_, _, e1, e2, _⟩ | ⟨_, _, e1, e2, _⟩
+    · refine ⟨by rw [e1]; exact h0.1, ?_⟩
+      rw [e2]
+      intro d hd'
+      rcases List.mem_append.mp hd' with hd' | hd'
+      · exact h0.2 d hd'
+      · simp only [List.mem_singleton] at hd'
+        subst hd'
+        obtain ⟨m, hm, hms, hml⟩ := h.1 _ (by rw [← hl]; exact hin)
+        refine ⟨pre, n, [], rfl, hn, ?_, m, hm, hms, ?_⟩
+        · rfl
+        · exact hml
+    · exact ⟨by rw [e1]; exact h0.1, by rw [e2]; exact h0.2⟩
+    · refine ⟨?_, by rw [e2]; exact h0.2⟩
+      rw [e1]
+      intro L hL
+      rcases List.mem_cons.mp hL with hL | hL
+      · exact ⟨n, by simp, hn, hL.symm⟩
+      · exact h0.1 L hL
+  · rw [step_plain layout σ n hn]
+    exact h.extend n
+
+theorem Inv.foldl {layout : Layout} : ∀ (l pre : List Node) (σ : St), Inv layout pre σ →
+    Inv layout (pre ++ l) (l.foldl (MultipleStatements.step layout) σ)
+  | [], pre, σ, h => by simpa using h
+  | n :: l, pre, σ, h => by
+    have := Inv.foldl l (pre ++ [n]) _ (h.step n)
+    simpa using this
+
+/-- soundness: a reported range is a statement (or last statement) of the program, and a statement visited before it
+    ends on the same line -/
+theorem multiple_statements_sound {layout : Layout} {P : Block} {g : Diag} (h : g ∈ run layout P) :
+    ∃ p n q, nBlock P = p ++ n :: q ∧ stmtish n ∧ g.primary = nodeSpan n ∧
+      ∃ m ∈ p, stmtish m ∧ endLine layout (nodeSpan m).last = endLine layout g.primary.last := by
+  have inv : Inv layout ([] ++ nBlock P) ((nBlock P).foldl (MultipleStatements.step layout) {}) :=
+    Inv.foldl (nBlock P) [] {} ⟨by intro L hL; simp at hL, by intro d hd; simp at hd⟩
+  simpa using inv.2 g h
+
+theorem diags_mono (layout : Layout) : ∀ (l : List Node) (σ : St) (d : Diag), d ∈ σ.diags →
+    d ∈ (l.foldl (MultipleStatements.step layout) σ).diags
+  | [], σ, d, h => by simpa using h
+  | n :: l, σ, d, h => by
+    simp only [List.foldl_cons]
+    apply diags_mono layout l
+    by_cases hn : stmtish n
+    · obtain ⟨σ0, _, hd, hs⟩ := step_stmtish layout σ n hn
+      rw [hs]
+      rcases lintStmt_lines_diags layout σ0 (nodeSpan n) with ⟨_, _, e2⟩ | ⟨_, _, _, e2, _⟩ | ⟨_, _, _, e2, _⟩ <;>
+        rw [e2] <;> simp [hd, h]
+    · rw [step_plain layout σ n hn]; exact h
+
+theorem foldl_plain (layout : Layout) : ∀ (l : List Node) (σ : St), (∀ n ∈ l, ¬ stmtish n) →
+    l.foldl (MultipleStatements.step layout) σ = σ
+  | [], σ, _ => rfl
+  | n :: l, σ, h => by
+    simp only [List.foldl_cons]
+    rw [step_plain layout σ n (h n (by simp))]
+    exact foldl_plain layout l σ (fun m hm => h m (by simp [hm]))
+
+def notIf : Stmt → Prop
+  | .if_ _ _ _ _ _ => False
+  | _ => True
+
+theorem step_notIf (layout : Layout) (σ : St) (s : Stmt) (h : notIf s) :
+    MultipleStatements.step layout σ (.stmt s) = lintStmt layout σ (stmtSpan s) := by
+  cases s <;> first | exact h.elim | simp [MultipleStatements.step]
+
+/-- canonical `foo() bar() baz()`: three consecutive statements of one statement list, anywhere in the program, each
+    without nested statements, ending on the same line — the **third** is always reported.  (The second is reported
+    too unless a one-line `if … then` of that very line is still pending, see `multiple_statements_miss_witness`.) -/
+theorem multiple_statements_canon_third {layout : Layout} {P : Block} {s1 s2 s3 : Stmt} {rest : StmtList}
+    (hw : Within (.block P) (.stmts (.cons s1 (.cons s2 (.cons s3 rest)))))
+    (hq1 : ∀ n ∈ nStmt s1, ¬ stmtish n) (hq2 : ∀ n ∈ nStmt s2, ¬ stmtish n)
+    (hn2 : notIf s2) (hn3 : notIf s3)
+    (hl12 : endLine layout (stmtSpan s1).last = endLine layout (stmtSpan s2).last)
+    (hl23 : endLine layout (stmtSpan s2).last = endLine layout (stmtSpan s3).last) :
+    ∃ g ∈ run layout P, g.primary = stmtSpan s3 := by
+  obtain ⟨pre, post, hsplit⟩ := within_nodes_infix hw
+  simp only [Any.nodes, nStmts] at hsplit
+  refine ⟨{ code := "multiple_statements", primary := stmtSpan s3, msg := MultipleStatements.msg }, ?_, rfl⟩
+  unfold run
+  rw [← hsplit]
+  simp only [List.foldl_append, List.foldl_cons]
+  generalize pre.foldl (MultipleStatements.step layout) {} = σ
+  -- first statement
+  obtain ⟨σ0, _, _, hs1⟩ := step_stmtish layout σ (.stmt s1) trivial
+  rw [hs1, foldl_plain layout (nStmt s1) _ hq1]
+  have a1 : endLine layout (stmtSpan s1).last ∈ (lintStmt layout σ0 (nodeSpan (.stmt s1))).lines ∨
+      endLine layout (stmtSpan s1).last ∉ (lintStmt layout σ0 (nodeSpan (.stmt s1))).ifLines := by
+    rcases lintStmt_lines_diags layout σ0 (nodeSpan (.stmt s1)) with ⟨hin, e1, _⟩ | ⟨_, _, _, _, e3⟩ | ⟨_, _, e1, _, _⟩
+    · left; rw [e1]; exact hin
+    · right; exact e3
+    · left; rw [e1]; simp [nodeSpan]
+  generalize lintStmt layout σ0 (nodeSpan (.stmt s1)) = σ1 at a1
+  -- second statement
+  rw [step_notIf layout σ1 s2 hn2, foldl_plain layout (nStmt s2) _ hq2]
+  have a2 : endLine layout (stmtSpan s2).last ∈ (lintStmt layout σ1 (stmtSpan s2)).lines := by
+    rcases lintStmt_lines_diags layout σ1 (stmtSpan s2) with ⟨hin, e1, _⟩ | ⟨hnl, hil, _, _, _⟩ | ⟨_, _, e1, _, _⟩
+    · rw [e1]; exact hin
+    · rw [← hl12] at hnl hil
+      rcases a1 with a1 | a1
+      · exact (hnl a1).elim
+      · exact (a1 hil).elim
+    · rw [e1]; simp
+  generalize lintStmt layout σ1 (stmtSpan s2) = σ2 at a2
+  -- third statement
+  rw [step_notIf layout σ2 s3 hn3]
+  apply diags_mono
+  apply diags_mono
+  apply diags_mono
+  rcases lintStmt_lines_diags layout σ2 (stmtSpan s3) with ⟨_, _, e2⟩ | ⟨hnl, _, _, _, _⟩ | ⟨hnl, _, _, _, _⟩
+  · rw [e2]; simp
+  · rw [← hl23] at hnl; exact (hnl a2).elim
+  · rw [← hl23] at hnl; exact (hnl a2).elim
+
+/-- a call statement `name()` at tokens `i … i+2` -/
+def callStmt (i : Nat) (name : String) : Stmt :=
+  .call (.mk ⟨i, i + 2⟩ (.name ⟨i, name⟩) (.cons (.args ⟨i + 1, i + 2⟩ (.parens ⟨i + 1, i + 2⟩ .nil)) .nil))
+
+/-- `if (function() foo() bar() end)() then⏎ return⏎ end` — 18 tokens, `then` is token 15 and ends line 1 -/
+def missIfProgram : Block :=
+  let inner : Block := .mk (some ⟨5, 10⟩) (.cons (callStmt 5 "foo") (.cons (callStmt 8 "bar") .nil)) .none
+  let cond : Expr := .call (.mk ⟨1, 14⟩ (.expr (.paren ⟨1, 12⟩ (.func ⟨2, 11⟩ ⟨2, "function"⟩ (.mk ⟨3, 11⟩ [] inner))))
+    (.cons (.args ⟨13, 14⟩ (.parens ⟨13, 14⟩ .nil)) .nil))
+  .mk (some ⟨0, 17⟩) (.cons (.if_ ⟨0, 17⟩ cond (.mk (some ⟨16, 16⟩) .nil (.ret ⟨16, 16⟩ .nil)) .nil .none) .nil) .none
+
+def missIfLayout : Layout :=
+  (List.replicate 16 (⟨0, 0, 1, 1⟩ : TokLayout) ++ [(⟨0, 0, 2, 2⟩ : TokLayout), (⟨0, 0, 3, 3⟩ : TokLayout)]).toArray
+
+/-- the departure: `foo() bar()` on one line inside a function in the condition of a return-only `if` whose `then`
+    is on that line — `foo()` uses up the pending one-line-if allowance, `bar()` is then the "first" statement -/
+theorem multiple_statements_miss_witness : run missIfLayout missIfProgram = [] := by rfl
+
+/-- non-vacuity of `multiple_statements_canon_third`: `foo() bar() baz()` on line 1 -/
+example : (∀ n ∈ nStmt (callStmt 0 "foo"), ¬ stmtish n) ∧ notIf (callStmt 3 "bar") ∧
+    endLine (List.replicate 9 (⟨0, 0, 1, 1⟩ : TokLayout)).toArray (stmtSpan (callStmt 0 "foo")).last =
+    endLine (List.replicate 9 (⟨0, 0, 1, 1⟩ : TokLayout)).toArray (stmtSpan (callStmt 6 "baz")).last := by
+  refine ⟨?_, trivial, by decide⟩
+  intro n hn
+  simp [callStmt, nStmt, nFCall, nPrefix, nSuffixes, nSuffix, nArgs, nExprs] at hn
+  subst hn
+  exact fun h => h
+
+end MultipleStatements
+
 end Selene.Props.C04B
